@@ -143,11 +143,15 @@ def mutate(rng, signed, other_signed):
         # trailing white space) and append something behind the limit
         b = rng.choice(body_idx)
         toks = lines[b].split()
-        tails = ['x', 'SHA1 ' + 'ab' * 20, 'MD5 ' + 'cd' * 16]
+        tails = ['x', 'SHA1 ' + 'ab' * 20, 'MD5 ' + 'cd' * 16,
+                 # (a complete entry: a reader that takes the long line in pieces
+                 # would see it as a line of its own)
+                 'DATA evil.sh 0', 'DATA evil.sh 0 MD5 ' + 'd4' * 16,
+                 'IGNORE evil-dir']
         if len(toks) > 4:
             tails += ['%s %s' % (toks[-2], 'e' * len(toks[-1]))] * 3
         total = rng.choice([19990, 19993, 19994, 19996, 20001, 20004, 20010, 25000,
-                            40000, 70000])
+                            40000, 70000, 8192 * 3, 8192 * 3 - 14, 65536 + 1, 32768])
         pad = max(1, total - len(lines[b].encode('utf8')))
         lines[b] = lines[b] + rng.choice([' ', '\t']) * pad + rng.choice(tails)
     elif op == 'sepws':
